@@ -495,6 +495,7 @@ func (c *Ctx) plainCodecRules(r *Report, prefix string) {
 	w.completeRule(r, prefix+"complete", "ed")
 	w.nestedDispatchRule(r, prefix+"nested-dispatch")
 	c.valueGuardRule(r, prefix+"value-guards")
+	w.lengthGuardRule(r, prefix+"decode.length-guards")
 	c.encodeTotality(r, prefix)
 	c.akaRules(r, prefix, "roundtrip")
 	c.akaPaddingRule(r, prefix)
